@@ -29,3 +29,5 @@ pub use error::{PreprocessingError, Result};
 pub use countgrams::verif_hooks_c17;
 #[cfg(linfa_verif)]
 pub mod verif_hooks_c04;
+#[cfg(linfa_verif)]
+pub mod verif_hooks_c16;
